@@ -105,6 +105,7 @@ def gen_config(rng, allow=('ne', 'W', 'nodes', 'cuts', 'goback'), cls=None):
           'avoid_goingback': ('goback' in allow and rng.random() < 0.5),
           'W': (rng.choice([0, 0, 1, 2, 3]) if 'W' in allow else 0),
           'dist_noise': rng.choice([None, 0.5, 2.0]) if cls == 'distance' else None,
+          'dist_noise_ne': rng.choice([None, None, 1.0, 3.0]) if cls == 'distance' else None,
           'restrained_ne': (rng.random() < 0.7) if cls == 'distance' else None}
     return cf
 
@@ -202,6 +203,8 @@ def build_matcher(mp, cf, conc):
     if cf['cls'] == 'distance':
         if cf.get('dist_noise') is not None:
             kw['dist_noise'] = conc.dscale(cf['dist_noise'])
+        if cf.get('dist_noise_ne') is not None:
+            kw['dist_noise_ne'] = conc.dscale(cf['dist_noise_ne'])
         kw['restrained_ne'] = bool(cf.get('restrained_ne', True))
         return DistanceMatcher(mp, **kw)
     return SimpleMatcher(mp, **kw)
@@ -330,7 +333,85 @@ def spec_cf(cf):
     """configuration in the vocabulary of the specification (fixed point)"""
     md = BIG if cf['max_dist'] is None else fx(cf['max_dist'])
     mdi = md if cf['max_dist_init'] is None else fx(cf['max_dist_init'])
-    mlp = [-BIG * 10, 1] if cf['min_prob_norm'] is None else [fx(math.log(cf['min_prob_norm'])), 1]
+    mlp = [-BIG, 1] if cf['min_prob_norm'] is None else [fx(math.log(cf['min_prob_norm'])), 1]
     return {'onlyEdges': cf['only_edges'], 'ne': cf['ne'], 'W': cf['W'], 'maxDist': md, 'maxDistInit': mdi,
             'minlp': mlp, 'neLen': fx(math.log(0.75)), 'neMax': 100, 'secondOrder': bool(cf['avoid_goingback']),
             'slack': 8, 'tables': False}
+
+
+# ------------------------------------------------------------------ recording for spec/Models.tla
+def mx(v, scale=1000):
+    if v is None or v != v or abs(v) == math.inf:
+        return -BIG
+    r = int(round(v * scale))
+    if abs(r) >= 2 * 10 ** 8:
+        raise common.MachineryError(f'value {v} out of range for the model trace')
+    return r
+
+
+def frac2(x):
+    from fractions import Fraction
+    f = 2 * Fraction(str(x)) ** 2
+    return [f.numerator, f.denominator]
+
+
+def _d(p, q):
+    return math.hypot(p[0] - q[0], p[1] - q[1])
+
+
+def model_record(tid, inst, cf, ops=None):
+    """run the real matcher at unit scale on the plane and record EVERY lattice entry with the quantities the
+    documented model is stated in (spec/Models.tla validates them)."""
+    conc = Conc()
+    evs, m = run_geo(inst, cf, conc, ops=ops, full=False)
+    if evs[-1]['exc']:
+        return None, evs[-1]['exc']
+    entries, index = [], {}
+    objs = []
+    for c in range(len(m.lattice)):
+        for L in m.lattice[c].o:
+            for x in L.values():
+                index[id(x)] = len(objs) + 1
+                objs.append(x)
+    for x in objs:
+        p = next(iter(x.prev)) if x.prev else None
+        if p is not None and id(p) not in index:
+            # predecessor object not in the lattice (C09's business); validate against the object itself
+            index[id(p)] = len(objs) + 1
+            objs.append(p)
+    for x in objs:
+        p = next(iter(x.prev)) if x.prev else None
+        st = [x.edge_m.l1, x.edge_m.l2] if x.edge_m.l2 is not None else [x.edge_m.l1]
+        pi = x.edge_m.pi if x.edge_m.pi is not None else x.edge_m.p1
+        e = {'st': st, 'obs': x.obs, 'ne': x.obs_ne, 'prev': index[id(p)] if p is not None else 0,
+             'lp': mx(x.logprob), 'lpe': mx(x.logprobe), 'lpne': mx(x.logprobne), 'len': x.length,
+             'dist': mx(x.dist_obs), 'd2': mx(x.dist_obs ** 2), 'ti': mx(x.edge_m.ti if x.edge_m.ti is not None else 0.0, 10000),
+             'pi': [mx(pi[0]), mx(pi[1])], 'stop': bool(x.stop),
+             'do': mx(getattr(x, 'd_o', 0.0)), 'ds': mx(getattr(x, 'd_s', 0.0)), 'lpt': mx(getattr(x, 'lpt', 0.0)),
+             'lpe1': mx(getattr(x, 'lpe', 0.0)), 'tiless': False, 'ca': 0, 'cb1': 0, 'cb2': 0, 'cz': 0}
+        if p is not None:
+            tp = p.edge_m.ti if p.edge_m.ti is not None else 0.0
+            tx = x.edge_m.ti if x.edge_m.ti is not None else 0.0
+            e['tiless'] = bool(tx < tp)
+            ppi = p.edge_m.pi if p.edge_m.pi is not None else p.edge_m.p1
+            e['ca'] = mx(_d(ppi, pi))
+            if p.edge_m.p2 is not None:
+                e['cb1'] = mx(_d(ppi, p.edge_m.p2))
+                e['cb2'] = mx(_d(p.edge_m.p2, pi))
+            po = p.edge_o.pi if p.edge_o.pi is not None else p.edge_o.p1
+            xo = x.edge_o.pi if x.edge_o.pi is not None else x.edge_o.p1
+            e['cz'] = mx(_d(po, xo))
+        entries.append(e)
+    path = [index[id(x)] for x in (m.lattice_best or [])]
+    T = len(inst['path'])
+    nmax = max(inst['nodes'])
+    coord4 = [[0, 0]] * nmax
+    coord4 = [[4 * inst['coord'][n][0], 4 * inst['coord'][n][1]] if n in inst['coord'] else [0, 0] for n in range(1, nmax + 1)]
+    dn = cf.get('dist_noise') if cf.get('dist_noise') is not None else cf['obs_noise']
+    one = cf['obs_noise_ne'] if cf.get('obs_noise_ne') is not None else cf['obs_noise']
+    dnne = cf.get('dist_noise_ne') if cf.get('dist_noise_ne') is not None else dn
+    rec = {'tid': tid, 'cls': cf['cls'], 'goback': bool(cf['avoid_goingback']), 'sig2': frac2(cf['obs_noise']),
+           'sig2ne': frac2(one), 'beta2': frac2(dn), 'beta2ne': frac2(dnne),
+           'coord4': coord4, 'obs4': [[int(round(4 * p[0])), int(round(4 * p[1]))] for p in inst['path']],
+           'fresh': all(o[0] == 'match' for o in (ops or [('match', T)])), 'entries': entries, 'path': path}
+    return rec, ''
